@@ -322,11 +322,13 @@ int BDBPersister::operator()()
 unsigned MemoryPersister::get(const unsigned from, const unsigned to, Session& session,
 	bool (Session::*callback)(const Session::SequencePair& with, Session::RetransmissionContext& rctx)) const
 {
+	// where sending has got to is read before the last stored number: a message is stored before its number is passed, so everything
+	// below that point is then within the range looked at, and the closing gap fill cannot run over messages stored meanwhile
+	Session::RetransmissionContext rctx(from, to, session.get_next_send_seq());
 	unsigned last_seq(0);
 	get_last_seqnum(last_seq);
 	unsigned recs_sent(0), startSeqNum(find_nearest_highest_seqnum (from, last_seq));
 	const unsigned finish(to == 0 ? last_seq : to);
-	Session::RetransmissionContext rctx(from, to, session.get_next_send_seq());
 
 	if (!startSeqNum || from > finish)
 	{
